@@ -11,13 +11,18 @@ must equal the trace of the Lean model run on the same schedule.
 Direct oracle (real code only): every call completes (no exception, no deadlock), returns what a fresh
 single-threaded retort returns, loaders obtained concurrently work afterwards on deeper data, generated file names
 are unique.
+Requests that legitimately FAIL are part of the input space (generated family `mix:...`, see FAILING_REQUESTS): a
+thread asking for a type nobody can load gets ProviderNotFoundError exactly as single-threaded - and must not disturb
+the valid first requests racing with it (they sit inside `cached_call` between `key in cache` and `cache[key]`).
+Leaf failures are modelled (`stepRaise`, `specRes`; theorems `cached_call_read_never_misses`,
+`call_cache_insert_only`, `failing_request_gets_not_found`); requests failing half-way are oracle-only.
 """
 
 import linecache
 import time
 from dataclasses import dataclass, fields, is_dataclass
 from pathlib import Path
-from typing import List, Optional, get_args, get_origin, Union
+from typing import Callable, List, Optional, get_args, get_origin, Union
 
 from harness import core
 from harness import scheduler as S
@@ -38,7 +43,12 @@ CLAIM = {
         "3*len+6 of its own actions whatever the others do (every_thread_finishes: no deadlock; the only lock "
         "guards a straight-line section), and - for request programs passing the schedule-independent static "
         "check `typed`, evaluated by the driver for every explored graph - that every call returns the unfolding "
-        "of its type, hence exactly what the sequential run returns (all_schedules_safe). For the unrepaired "
+        "of its type, hence exactly what the sequential run returns (all_schedules_safe). A thread may also issue a "
+        "request nobody can satisfy (a type no shape provider recognises): it ends with ProviderNotFoundError under "
+        "every interleaving (failing_request_gets_not_found), its failure touches nothing shared, both caches are "
+        "insert-only along every schedule (call_cache_insert_only, loader_cache_insert_only) and therefore the "
+        "read `self._call_cache[key]` after `key in self._call_cache` finds its entry whatever other threads did "
+        "in between (cached_call_read_never_misses). For the unrepaired "
         "FuncWrapper (stubs equal by location) the faithful model has a 2-thread schedule with ONE preemption "
         "that calls an unbound stub (exists_bad_schedule, kernel evaluation); the harness replays it on the real "
         "retort. The model is tied to the code by replaying every explored schedule on real threads under a "
@@ -49,9 +59,12 @@ CLAIM = {
         "Trusted: Lean 4.33 kernel; axioms audited each run. The theorems are about the Lean model; the model is "
         "hand-written and tied to /repo by the schedule-run correspondence (quick: all schedules with <= 1 "
         "preemption over 9 two-thread type graphs, <= 2 sampled, random and statement-granularity schedules; "
-        "thorough: <= 2 exhaustive, <= 4 sampled). Assumed: CPython with the GIL makes a single dict lookup / "
+        "thorough: <= 2 exhaustive, <= 4 sampled; plus the generated family 'a failing request races with a valid "
+        "one': 6 failing x 9 valid requests, all schedules with <= 1 preemption for a seed-drawn subset (quick: 3-5 "
+        "pairs, thorough: about 20 of the 54 pairs)). Assumed: CPython with the GIL makes a single dict lookup / "
         "dict store / attribute store atomic; preemption inside C-level operations cannot be exhibited by line "
-        "tracing; only successful requests are modelled (failing requests: C11); `typed` is checked per graph, "
+        "tracing; of the failing requests only those for an unloadable ROOT type are modelled (a request failing "
+        "half-way, below a model, is checked by the direct oracle only); `typed` is checked per graph, "
         "not proved for all graphs. Needs fixes/C12-stub-identity.patch in /repo: on the unpatched tree the "
         "check reports the violation with the failing schedule."
     ),
@@ -64,7 +77,12 @@ RULE = ("a case is one schedule of 2-3 real threads racing on the first get_load
         "scenarios (sampled for the 2 expensive ones), <= 2 preemptions exhaustive for the plain model and sampled "
         "in randomised order elsewhere, plus random, malformed and facade-form schedules at yield-point "
         "granularity and random schedules at statement granularity (oracle only); thorough: <= 2 exhaustive for 7 "
-        "scenarios, <= 3 / <= 4 sampled. A case is non-trivial when at least two threads were inside the creation "
+        "scenarios, <= 3 / <= 4 sampled. Generated family: one thread issues a request that legitimately fails "
+        "(unloadable leaf for load / dump, model with an unloadable field, recursive model with an unloadable field, "
+        "Optional of such a model), the other(s) a valid first request (9 kinds: call-cache hits inside one request, "
+        "recursion stubs, dumpers); quick: ALL schedules with <= 1 preemption for one seed-drawn victim per failing "
+        "request within 6 s, thorough: the pairs in seed order within 45 s + <= 2 sampled with 2-3 threads; members of the family also in the "
+        "random / facade / malformed / statement-granularity stages (3 in 10). A case is non-trivial when at least two threads were inside the creation "
         "code at the same time (their actions interleave before the first loader-cache store)")
 ASSUMPTIONS = [
     "GIL atomicity of a single dict lookup, dict store and attribute store (CPython 3.12 with the GIL; "
@@ -73,7 +91,9 @@ ASSUMPTIONS = [
     "exhibited by line tracing; the model treats them as atomic",
     "thread-local work between two shared accesses is merged into one action (it commutes with the actions of "
     "other threads)",
-    "only requests that succeed are modelled; a request that fails half-way is C11's concern",
+    "of the requests that fail only those for an unloadable ROOT type are modelled (all shape probes raise, "
+    "nothing is stored, `_facade_provide` raises); a request that fails half-way (an unloadable type below a model) "
+    "is run under the direct oracle only",
     "ConcurrentCounter's critical section is one atomic action of the model (it touches only the counter and "
     "cannot block); the harness still preempts inside it and treats the lock as a lock",
 ]
@@ -141,7 +161,50 @@ class Tri:
     c: Optional["Tri"] = None
 
 
-_NS = {c.__name__: c for c in (Node, Chain, MA, MB, Tree, Sub, Pair, Single, Holder, Tri)}
+@dataclass
+class Twin:
+    a: int
+    b: int          # the second field of one type: its loader is a call-cache HIT inside one request
+
+
+# --- requests that legitimately FAIL (single-threaded outcome: ProviderNotFoundError) --------------------------------
+# leaves nobody can load or dump: every shape provider is probed through `cached_call` and raises, nothing is stored
+Unloadable = Callable[[int], int]
+
+
+class Opaque:
+    """a plain class without fields: no shape provider recognises it"""
+
+
+@dataclass
+class Half:
+    """fails half-way: the int loader and the shape are already in the shared call cache when `bad` fails"""
+    a: int
+    bad: Unloadable
+    c: int
+
+
+@dataclass
+class RecBad:
+    """fails inside a recursion: the request dies while one of its stubs is still unbound"""
+    next: Optional["RecBad"]
+    bad: Unloadable
+
+
+@dataclass
+class OptBad:
+    inner: Optional[Half] = None
+
+
+UNLOADABLE_LEAVES = {"Unloadable": Unloadable, "Opaque": Opaque}
+
+_NS = {c.__name__: c for c in (Node, Chain, MA, MB, Tree, Sub, Pair, Single, Holder, Tri, Twin, Half, RecBad, OptBad,
+                                Opaque)}
+ROOT_TYPES = {**_NS, "Unloadable": Unloadable}       # root types of generated scenarios by `type_name` (replay)
+
+
+def is_unloadable_leaf(tp) -> bool:
+    return any(tp is u or tp == u for u in UNLOADABLE_LEAVES.values())
 
 
 def _resolve(tp):
@@ -168,6 +231,9 @@ def field_types(cls):
 def type_name(tp) -> str:
     if is_dataclass(tp):
         return tp.__name__
+    for name, u in UNLOADABLE_LEAVES.items():
+        if tp is u or tp == u:
+            return name
     if tp is int:
         return "int"
     origin = get_origin(tp)
@@ -190,7 +256,14 @@ SITES = {
     "list_loader": (14, "IterableProvider._make_loader"),
     "list_dumper": (15, "IterableProvider._make_dumper"),
     "int_loader": (16, "ScalarProvider._make_loader"),
+    # the other shape providers of BUILTIN_SHAPE_PROVIDER, in order (only a request for a type that is no model at
+    # all gets this far: all seven raise CannotProvide)
+    "shape_attrs": (4, "ShapeProvider._get_shape"),
+    "shape_sa": (5, "ShapeProvider._get_shape"),
+    "shape_pyd": (6, "ShapeProvider._get_shape"),
+    "shape_init": (7, "ShapeProvider._get_shape"),
 }
+SHAPE_PROBES = ["shape_nt", "shape_td", "shape_dc", "shape_attrs", "shape_sa", "shape_pyd", "shape_init"]
 SITE_DISPLAY = {i: d for i, d in SITES.values()}
 
 
@@ -216,9 +289,11 @@ class Universe:
             self.loc_desc[i] = ":".join(str(k) for k in key)
         return self.loc_ids[(direction, key)]
 
-    def ty(self, direction: str, tp) -> int:
+    def ty(self, direction: str, tp, root: bool = True) -> int:
         tp = _resolve(tp)
         name = type_name(tp)
+        if is_unloadable_leaf(tp) and not root:
+            raise InfraError("a request that fails half-way (an unloadable type below a model) is outside the model")
         k = (direction, name)
         if k in self.ty_ids:
             return self.ty_ids[k]
@@ -231,7 +306,7 @@ class Universe:
             children = []
             for fname, ftp in field_types(tp):
                 ftp = _resolve(ftp)
-                fty = self.ty(direction, ftp)
+                fty = self.ty(direction, ftp, False)
                 children.append(self.loc(direction, ("InputFieldLoc" if ld else "OutputFieldLoc", fname, type_name(ftp)), fty))
             self.nodes[i] = {"ty": i, "site": SITES["model_loader" if ld else "model_dumper"][0], "kind": "fresh",
                              "pre": [[SITES["shape_nt"][0], cid, "fail"], [SITES["shape_td"][0], cid, "fail"],
@@ -243,14 +318,20 @@ class Universe:
             self.nodes[i] = {"ty": i, "site": SITES["int_loader"][0], "kind": ["prim", 1], "pre": [], "children": []}
         elif get_origin(tp) is Union:
             arg = tp.__args__[0]
-            aty = self.ty(direction, arg)
+            aty = self.ty(direction, arg, False)
             self.nodes[i] = {"ty": i, "site": SITES["opt_loader" if ld else "opt_dumper"][0], "kind": "fresh_nullable",
                              "pre": [], "children": [self.loc(direction, ("GenericParamLoc", 0, type_name(arg)), aty)]}
         elif get_origin(tp) in (list, List):
             arg = get_args(tp)[0]
-            aty = self.ty(direction, arg)
+            aty = self.ty(direction, arg, False)
             self.nodes[i] = {"ty": i, "site": SITES["list_loader" if ld else "list_dumper"][0], "kind": "fresh_nullable",
                              "pre": [], "children": [self.loc(direction, ("GenericParamLoc", 0, type_name(arg)), aty)]}
+        elif is_unloadable_leaf(tp):
+            # ModelLoaderProvider / ModelDumperProvider ask every shape provider in turn (each through cached_call);
+            # all raise CannotProvide, nothing is stored, the request ends with ProviderNotFoundError
+            cid = self.cls_ids.setdefault(name, 1000 + len(self.cls_ids))
+            self.nodes[i] = {"ty": i, "site": SITES[SHAPE_PROBES[-1]][0], "kind": "fail",
+                             "pre": [[SITES[p][0], cid, "fail"] for p in SHAPE_PROBES[:-1]], "children": []}
         else:
             raise InfraError(f"type outside the C12 universe: {tp!r}")
         self.tops[i] = self.loc(direction, ("TypeHintLoc", type_name(tp)), i)
@@ -268,8 +349,8 @@ class Universe:
 def gen_data(tp, depth: int, direction: str):
     """canonical datum of nesting depth `depth`: Optional is None / a list is empty at depth 0"""
     tp = _resolve(tp)
-    if tp is int:
-        return 7
+    if tp is int or is_unloadable_leaf(tp):
+        return 7            # (an unloadable leaf never gets as far as looking at data)
     if is_dataclass(tp):
         vals = {n: gen_data(t, depth, direction) for n, t in field_types(tp)}
         return vals if direction == "load" else tp(**vals)
@@ -298,6 +379,86 @@ QUICK_FULL2 = ["plain-model"]                                   # exhaustive <= 
 QUICK_SLICED = ["three-threads-chain", "stub-reuse-tri"]        # <= 1 preemption only sampled in the quick tier
 THOROUGH_SLICED = ["three-threads-chain", "stub-reuse-tri", "holder-and-node", "mutual-recursive-same"]
 #                                                                 <= 2 preemptions only sampled in the thorough tier
+
+# ---------------------------------------------------------------------------
+# generated scenarios: a request that legitimately FAILS races with valid first requests
+# ---------------------------------------------------------------------------
+# The property quantifies over the threads that use the retort, not over threads whose requests succeed: the
+# documented outcome of `get_loader(<type nobody can load>)` is ProviderNotFoundError with or without threads, and a
+# thread that gets it must not disturb the others.  A scenario of this family is a multiset of requests drawn from
+# the two pools below with at least one failing and one valid request; its name spells the requests out
+# ("mix:load:Unloadable:0|load:Twin:0"), so a recorded case replays without a table.
+FAILING_REQUESTS = [
+    ("load", Unloadable, 0),    # leaf failure: seven probes through cached_call, nothing stored (modelled)
+    ("dump", Unloadable, 0),
+    ("load", Opaque, 0),
+    ("load", Half, 0),          # fails half-way, after it has stored entries other requests hit (oracle only)
+    ("load", RecBad, 1),        # fails with an unbound stub of its own (oracle only)
+    ("load", OptBad, 1),
+]
+VALID_REQUESTS = [
+    ("load", Twin, 0),          # two fields of one type: call-cache hit inside the request
+    ("load", Pair, 0),          # two fields of one model type: hits on shape, model loader
+    ("load", Chain, 3), ("load", Node, 3), ("load", MA, 3), ("load", Holder, 3), ("load", Tri, 2),   # recursion stubs
+    ("dump", Tree, 2),
+    ("load", Sub, 0),           # no hit at all
+]
+
+
+# victims whose <= 1-preemption exploration costs 1-2 s: the quick tier draws from these (the expensive ones - long
+# traces of Tri / Holder / MA - are explored in the thorough tier and met in the random stages)
+QUICK_VICTIMS = [r for r in VALID_REQUESTS if r[1] in (Twin, Pair, Chain, Node, Tree, Sub)]
+
+
+def request_name(req) -> str:
+    d, tp, depth = req
+    return f"{d}:{type_name(tp)}:{depth}"
+
+
+def mixed_name(threads) -> str:
+    return "mix:" + "|".join(request_name(r) for r in threads)
+
+
+def threads_from_name(name: str):
+    """inverse of `mixed_name` (None when the name is not of that family or names an unknown type)"""
+    if not name.startswith("mix:"):
+        return None
+    out = []
+    for part in name[4:].split("|"):
+        bits = part.split(":")
+        if len(bits) != 3 or bits[0] not in ("load", "dump") or bits[1] not in ROOT_TYPES or not bits[2].isdigit():
+            return None
+        out.append((bits[0], ROOT_TYPES[bits[1]], int(bits[2])))
+    return out
+
+
+def mixed_pairs():
+    """every (failing, valid) pair: the systematic part of the family.  One thread order is enough for the bounded
+    exploration: the first scheduling decision is free, so the schedules with <= k preemptions of [v, f] and of
+    [f, v] are the same interleavings."""
+    return [[v, f] for f in FAILING_REQUESTS for v in VALID_REQUESTS]
+
+
+def mixed_random(rng):
+    """a random member of the family: 2-3 threads, at least one failing and one valid request"""
+    n = rng.choice([2, 2, 3])
+    threads = [rng.choice(FAILING_REQUESTS), rng.choice(VALID_REQUESTS)]
+    while len(threads) < n:
+        threads.append(rng.choice(FAILING_REQUESTS + VALID_REQUESTS))
+    rng.shuffle(threads)
+    return threads
+
+
+def scenario_by_name(name: str, threads_hint=None):
+    if name in SCENARIOS:
+        return Scenario(name)
+    threads = threads_from_name(name)
+    if threads is None and threads_hint:
+        try:
+            threads = [(d, ROOT_TYPES[t], int(depth)) for d, t, depth in threads_hint]
+        except (KeyError, ValueError, TypeError):
+            threads = None
+    return Scenario(name, threads) if threads else None
 
 
 # ---------------------------------------------------------------------------
@@ -334,6 +495,30 @@ class Real:
         return self._expected[k]
 
 
+def real_fails(tp) -> bool:
+    """the request for `tp` legitimately fails: `tp` is, or contains below models / Optional / list, an unloadable leaf"""
+    seen = set()
+
+    def go(t):
+        t = _resolve(t)
+        if is_unloadable_leaf(t):
+            return True
+        if is_dataclass(t):
+            if t in seen:
+                return False
+            seen.add(t)
+            return any(go(ft) for _, ft in field_types(t))
+        if get_origin(t) is Union:
+            return go(t.__args__[0])
+        if get_origin(t) in (list, List):
+            return go(get_args(t)[0])
+        return False
+    return go(tp)
+
+
+NOT_FOUND = "exception:ProviderNotFoundError"
+
+
 def _loc_key(loc) -> tuple:
     cls = type(loc).__name__
     if cls == "TypeHintLoc":
@@ -348,8 +533,23 @@ class Scenario:
         self.name = name
         self.threads = threads if threads is not None else SCENARIOS[name]
         self.uni = Universe()
-        self.tys = [self.uni.ty(d, tp) for d, tp, _ in self.threads]
         self.ty_by_name = {}
+        self.failing = [real_fails(tp) for _, tp, _ in self.threads]       # which threads issue a failing request
+        try:
+            self.tys = [self.uni.ty(d, tp) for d, tp, _ in self.threads]
+            self.modelled = True
+        except InfraError:
+            # outside the Lean model (a request failing half-way, an int dumper): direct oracle only
+            self.tys = []
+            self.modelled = False
+
+    @property
+    def family(self) -> str:
+        """evidence bucket: the named scenarios are their own family, the generated ones are grouped by what fails"""
+        if not any(self.failing):
+            return self.name
+        leaf = all(is_unloadable_leaf(tp) for (_, tp, _), f in zip(self.threads, self.failing) if f)
+        return "mix-fail-leaf" if leaf else "mix-fail-halfway"
 
     def namer(self) -> S.Namer:
         uni = self.uni
@@ -388,9 +588,15 @@ class Outcome:
                 continue
             if ts.exc is not None:
                 cls = classify_exc(ts.exc)
+                exp = real.expected(direction, tp, depth)
+                if cls == NOT_FOUND and exp == ("raises", NOT_FOUND):
+                    # the documented outcome of a request nobody can satisfy, with or without threads
+                    self.results.append("not_found")
+                    continue
                 self.results.append(cls)
                 self.problems.append((cls, f"thread {ts.tid} ({direction} {type_name(tp)} depth {depth}) raised "
-                                           f"{type(ts.exc).__name__}: {str(ts.exc)[:160]}"))
+                                           f"{type(ts.exc).__name__}: {str(ts.exc)[:160]}"
+                                           + (f" (a single-threaded run raises {exp[1]})" if exp[0] == "raises" else "")))
             elif ("value", ts.result) != real.expected(direction, tp, depth):
                 self.results.append("wrong-result")
                 self.problems.append(("wrong-result", f"thread {ts.tid} ({direction} {type_name(tp)}) returned "
@@ -403,6 +609,17 @@ class Outcome:
             # loaders obtained concurrently must stay correct for later calls (deeper data, and through the facade)
             for tid, ((direction, tp, depth), ld) in enumerate(zip(sc.threads, loaders)):
                 if ld is None:
+                    if sc.failing[tid] and self.results[tid] == "not_found":
+                        # a failing request fails the same way when it is issued again on the used retort
+                        try:
+                            retort.get_loader(tp) if direction == "load" else retort.get_dumper(tp)
+                            again = "a loader"
+                        except Exception as e:  # noqa: BLE001
+                            again = classify_exc(e)
+                        if again != NOT_FOUND:
+                            self.problems.append(("later-call:failing-request",
+                                                  f"the failing request of thread {tid} ({direction} {type_name(tp)}) "
+                                                  f"gives {again} when repeated, not ProviderNotFoundError"))
                     continue
                 for dd in (depth + 2,):
                     data = gen_data(tp, dd, direction)
@@ -453,7 +670,13 @@ def thread_fn(real: Real, retort, direction, tp, depth, loaders: list, facade: b
         if facade:
             # the documented usage: retort.load(...) (get_loader + call in one statement)
             return retort.load(data, tp) if direction == "load" else retort.dump(data, tp)
-        ld = retort.get_loader(tp) if direction == "load" else retort.get_dumper(tp)
+        try:
+            ld = retort.get_loader(tp) if direction == "load" else retort.get_dumper(tp)
+        except Exception as e:  # noqa: BLE001
+            if classify_exc(e) == NOT_FOUND:
+                # the request has failed (thread-local: `_facade_provide` re-raises); one action of the trace, like `call`
+                run.point("not_found", lambda: [type_name(tp)])
+            raise
         loaders[tid] = ld
         run.point("call", lambda: [type_name(tp), depth])
         return ld(data)
@@ -562,6 +785,8 @@ def canon_model_trace(sc: Scenario, labels: list) -> tuple[list, list]:
             out.append([tid, kind, uni.loc_desc.get(l[2], f"?loc{l[2]}"), rn(l[3]), rn(l[4])])
         elif kind == "call":
             out.append([tid, kind, uni.ty_names[l[2]].split(":", 1)[1], l[3]])
+        elif kind == "not_found":
+            out.append([tid, kind, uni.ty_names[l[2]].split(":", 1)[1]])
         else:
             out.append([tid, kind, *l[2:]])
     return out
@@ -584,14 +809,58 @@ def note(ctx: Ctx, sc: Scenario, oc: Outcome, how: str):
         tids_before_first_put.append(a[0])
     interleaved = len(set(tids_before_first_put)) >= 2
     case = {"scenario": sc.name, "schedule": oc.run.schedule}
-    ctx.note_case(case, nontrivial=interleaved, kind=f"{sc.name}/{how}")
+    ctx.note_case(case, nontrivial=interleaved, kind=f"{sc.family}/{how}")
     for r in oc.results:
         ctx.dist[f"outcome-{r}"] += 1
+    if any(sc.failing):
+        # how deep into the region "a request fails while another thread is inside cached_call" the case goes
+        ctx.dist["region:runs-with-a-failing-request"] += 1
+        w = fail_inside_hit_window(sc, oc)
+        if w:
+            ctx.dist["region:request-fails-between-`key in cache`-and-`cache[key]`-of-another-thread"] += 1
+        if fail_while_other_in_flight(sc, oc):
+            ctx.dist["region:request-fails-while-another-request-is-in-flight"] += 1
+
+
+def _last_shared_action(sc: Scenario, oc: Outcome) -> dict:
+    """index of the last action before the (thread-local) failure of every failing thread"""
+    last = {}
+    for i, a in enumerate(oc.trace):
+        if sc.failing[a[0]] and a[1] != "not_found":
+            last[a[0]] = i
+    return last
+
+
+def fail_inside_hit_window(sc: Scenario, oc: Outcome) -> bool:
+    """some failing request ends (its last shared action) after another thread has seen `key in self._call_cache`
+    and before that thread reads `self._call_cache[key]`"""
+    last = _last_shared_action(sc, oc)
+    pending: dict = {}
+    for i, a in enumerate(oc.trace):
+        tid, kind = a[0], a[1]
+        if kind == "cc_contains" and len(a) > 4 and a[4] is True:
+            pending[tid] = i
+        elif tid in pending and kind == "cc_get":
+            if any(pending[tid] < k < i for t, k in last.items() if t != tid):
+                return True
+            del pending[tid]
+    # a victim that died in the window never performs the read: the window is still open at the end of the trace
+    return any(pending[tid] < k for tid in pending for t, k in last.items() if t != tid)
+
+
+def fail_while_other_in_flight(sc: Scenario, oc: Outcome) -> bool:
+    last = _last_shared_action(sc, oc)
+    span = {}
+    for i, a in enumerate(oc.trace):
+        if not sc.failing[a[0]]:
+            lo, hi = span.get(a[0], (i, i))
+            span[a[0]] = (lo, i if a[1] != "call" else hi)
+    return any(lo < k < hi for k in last.values() for lo, hi in span.values())
 
 
 def oracle(ctx: Ctx, sc: Scenario, oc: Outcome, mode: str, facade: bool):
     for cls, what in oc.problems:
-        ctx.fail(f"{sc.name}:{cls}", f"[{sc.name}] {what} (schedule of {len(oc.run.schedule)} decisions, "
+        ctx.fail(f"{sc.family}:{cls}", f"[{sc.name}] {what} (schedule of {len(oc.run.schedule)} decisions, "
                  f"{mode} granularity)",
                  {"scenario": sc.name, "mode": mode, "facade": facade, "schedule": oc.run.schedule,
                   "threads": [[d, type_name(tp), depth] for d, tp, depth in sc.threads]})
@@ -605,7 +874,7 @@ class Batch:
         self.items: list[tuple[Scenario, Outcome]] = []
 
     def add(self, sc, oc):
-        if self.drv is not None and oc.run.deadlock is None:
+        if self.drv is not None and oc.run.deadlock is None and sc.modelled:
             self.items.append((sc, oc))
 
     def flush(self):
@@ -678,6 +947,47 @@ def explore_outcomes(ex, max_pre, deadline, rng):
                     stack.append((child, used + cost))
 
 
+def pick_scenario(rng, names) -> Scenario:
+    """random stages: a named scenario, or (3 times in 10) a random member of the failing-request family"""
+    if rng.random() < 0.3:
+        threads = mixed_random(rng)
+        return Scenario(mixed_name(threads), threads)
+    return Scenario(rng.choice(names))
+
+
+def run_mixed(ctx: Ctx, real: Real, batch: Batch, thorough: bool, deadline: float) -> dict:
+    done: dict = {}
+    if thorough:
+        todo = mixed_pairs()
+        ctx.rng.shuffle(todo)
+    else:
+        todo = []
+        for _round in range(len(VALID_REQUESTS)):
+            fs = list(FAILING_REQUESTS)
+            ctx.rng.shuffle(fs)
+            for f in fs:
+                todo.append([ctx.rng.choice(QUICK_VICTIMS), f])
+    for threads in todo:
+        if time.time() > deadline:
+            break
+        name = mixed_name(threads)
+        if name in done:
+            continue
+        sc = Scenario(name, threads)
+        n = explore(ctx, real, batch, sc, 1, deadline, None)
+        done[name] = {"schedules_le1": n, "complete": time.time() < deadline, "model_compared": sc.modelled}
+        batch.flush()
+    if thorough:
+        # <= 2 preemptions and three-thread members of the family, sampled
+        t2 = time.time() + 15
+        while time.time() < t2:
+            threads = mixed_random(ctx.rng)
+            sc = Scenario(mixed_name(threads), threads)
+            explore(ctx, real, batch, sc, 2, min(t2, time.time() + 3), ctx.rng)
+            batch.flush()
+    return done
+
+
 def run(ctx: Ctx):
     real = Real()
     ctx.extra["funcwrapper_equality"] = real.mode
@@ -693,11 +1003,20 @@ def run(ctx: Ctx):
             drv = None
     batch = Batch(ctx, real, drv)
     thorough = ctx.tier == "thorough"
-    t_end = time.time() + ctx.budget(54, 420)
+    t_end = time.time() + ctx.budget(60, 480)
+    stage_t = {"start": time.time()}
+
+    def stage(name):
+        now = time.time()
+        ctx.extra.setdefault("stage_seconds", {})[name] = round(now - stage_t["start"], 1)
+        stage_t["start"] = now
     names = list(SCENARIOS)
     # 0a. the schedule-independent hypothesis of `all_schedules_safe` (`typed`) for every requested type
     if drv is not None:
         scs = [Scenario(n) for n in names]
+        # ... and for the modelled members of the failing-request family (a failing request is well typed when its
+        # program leaves nothing on the operand stack)
+        scs += [sc for sc in (Scenario(mixed_name(t), t) for t in mixed_pairs()) if sc.modelled]
         reps = drv.batch([{"op": "static", "graph": sc.uni.graph_json(), "fuel": sc.uni.fuel(), "tys": sc.tys}
                           for sc in scs])
         bad = [(sc.name, r) for sc, rep in zip(scs, reps) for r in rep.get("ok", [{"typed": False}]) if not r.get("typed")]
@@ -727,17 +1046,25 @@ def run(ctx: Ctx):
         n = explore(ctx, real, batch, sc, 1, dl, None if full else ctx.rng)
         exhaustive[name] = {"max_preemptions": 1 if time.time() < dl else 0, "schedules_le1": n}
         batch.flush()
+    stage("0-1 static, lean witness, <=1 preemption named scenarios")
+    # 1b. a request that legitimately FAILS races with a valid first request (generated family, see FAILING_REQUESTS):
+    #     all schedules with <= 1 preemption per scenario; quick: one victim and thread order per failing request drawn
+    #     from the seed, round robin over the failing requests inside a time slice; thorough: every pair, both orders
+    mixed_done = run_mixed(ctx, real, batch, thorough, min(t_end, time.time() + ctx.budget(6, 45)))
+    ctx.extra["failing_request_scenarios"] = mixed_done
+    stage("1b failing-request family")
     # 2. <= 2 preemptions: exhaustive for QUICK_FULL2 (thorough: every scenario not in THOROUGH_SLICED), otherwise
     #    a time slice in randomised order
     for name in sorted(names, key=lambda n: n not in QUICK_FULL2):
         sc = Scenario(name)
         full = (name in QUICK_FULL2) or (thorough and name not in THOROUGH_SLICED)
-        dl = t_end if full else min(t_end, time.time() + ctx.budget(2, 15))
+        dl = t_end if full else min(t_end, time.time() + (1.7 if not thorough else 15))
         n = explore(ctx, real, batch, sc, 2, dl, None if full else ctx.rng)
         if full and time.time() < dl and exhaustive[name]["max_preemptions"] == 1:
             exhaustive[name]["max_preemptions"] = 2
         exhaustive[name]["schedules_le2"] = n
         batch.flush()
+    stage("2 <=2 preemptions")
     if thorough:
         for k in (3, 4):
             for name in names:
@@ -747,13 +1074,14 @@ def run(ctx: Ctx):
                 batch.flush()
     ctx.extra["exhaustive"] = False
     ctx.extra["exhaustive_part"] = exhaustive
+    stage("2b <=3/<=4 sampled (thorough)")
     # 3. random schedules at yield-point granularity (model-compared), including the facade form retort.load(...)
     #    and malformed schedules (ids of finished / non-existing threads: both sides fall back deterministically)
     t_rand = time.time() + ctx.budget(6, 40)
     for i in range(ctx.budget(60, 4000)):
         if time.time() > t_rand:
             break
-        sc = Scenario(ctx.rng.choice(names))
+        sc = pick_scenario(ctx.rng, names)
         r = ctx.rng.random()
         if r < 0.2:
             junk = [ctx.rng.randrange(-1, len(sc.threads) + 2) for _ in range(ctx.rng.randrange(0, 80))]
@@ -770,16 +1098,18 @@ def run(ctx: Ctx):
         ctx.sample({"scenario": sc.name, "how": how, "schedule": oc.run.schedule, "results": oc.results,
                     "trace_head": oc.trace[:6]}, every=37)
     batch.flush()
+    stage("3 random, facade, malformed")
     # 4. statement granularity (every line of the traced functions is a preemption point): direct oracle only
     t_lines = time.time() + ctx.budget(6, 40)
     for i in range(ctx.budget(40, 3000)):
         if time.time() > t_lines:
             break
-        sc = Scenario(ctx.rng.choice(names))
+        sc = pick_scenario(ctx.rng, names)
         oc = execute(real, sc, S.chooser_random(ctx.rng, ctx.rng.choice([0.05, 0.2])), mode="lines",
                      facade=ctx.rng.random() < 0.5)
         note(ctx, sc, oc, "lines-random")
         oracle(ctx, sc, oc, "lines", False)
+    stage("4 statement granularity")
 
 
 def search(ctx: Ctx):
@@ -788,15 +1118,17 @@ def search(ctx: Ctx):
     real = Real()
     for d in ctx.disagreements[:100]:
         c = d["case"]
-        if c.get("scenario") in SCENARIOS:
-            sc = Scenario(c["scenario"])
+        sc = scenario_by_name(c.get("scenario", ""))
+        if sc is not None:
             oc = execute(real, sc, S.chooser_from_schedule(c["schedule"]))
             oracle(ctx, sc, oc, "points", False)
     deadline = time.time() + ctx.budget(120, 400)
-    for name in SCENARIOS:
+    pairs = mixed_pairs()
+    ctx.rng.shuffle(pairs)
+    for name in list(SCENARIOS) + [mixed_name(t) for t in pairs[:12]]:
         if ctx.failures or time.time() > deadline:
             break
-        sc = Scenario(name)
+        sc = scenario_by_name(name)
 
         def ex(overrides, sc=sc):
             return execute(real, sc, S.chooser_from_overrides(overrides), mode="lines")
@@ -808,17 +1140,16 @@ def search(ctx: Ctx):
     for _ in range(300):
         if ctx.failures or time.time() > deadline:
             break
-        sc = Scenario(ctx.rng.choice(list(SCENARIOS)))
+        sc = pick_scenario(ctx.rng, list(SCENARIOS))
         oc = execute(real, sc, S.chooser_random(ctx.rng, 0.2), mode="lines")
         oracle(ctx, sc, oc, "lines", False)
 
 
 def replay(ctx: Ctx, case) -> bool:
     real = Real()
-    name = case.get("scenario")
-    if name not in SCENARIOS:
+    sc = scenario_by_name(case.get("scenario") or "", case.get("threads"))
+    if sc is None:
         return False
-    sc = Scenario(name)
     before = len(ctx.failures)
     oc = execute(real, sc, S.chooser_from_schedule(case["schedule"]), mode=case.get("mode", "points"),
                  facade=bool(case.get("facade")))
